@@ -7,6 +7,7 @@ import (
 	"fmt"
 	"strings"
 	"sync"
+	"sync/atomic"
 
 	xmd4 "golang.org/x/crypto/md4"
 
@@ -546,14 +547,73 @@ func concurrentCallers() {
 	r.Count("concurrent_caller_goroutines", G)
 }
 
+// sharedReaders: one hash object, written by one goroutine; once it has finished, several
+// goroutines read the digest of that object at the same time (reading does not change the object,
+// so readers do not need to exclude each other), then the writer goes on. Every read is the digest
+// of what had been written, and the later writes produce what they would have without the reads.
+func sharedReaders() {
+	const G = 8
+	for run := 0; run < r.Pick(40, 400); run++ {
+		rng := r.Rand(fmt.Sprintf("shared-readers|%d", run))
+		m := pattern([]int{0, 1, 55, 56, 63, 64, 65, 119, 120, 128, 1000}[run%11]+rng.IntN(3)*64, byte(run))
+		more := pattern(1+rng.IntN(130), byte(run+1))
+		h := md4.New()
+		h.Write(m)
+		want := refMD4(m)
+		var wrong atomic.Int64
+		var first atomic.Value
+		var wg sync.WaitGroup
+		for g := 0; g < G; g++ {
+			wg.Add(1)
+			go func(g int) {
+				defer wg.Done()
+				for i := 0; i < 200; i++ {
+					var got [16]byte
+					if (g+i)%2 == 0 {
+						got = h.Sum()
+					} else {
+						b, _ := hex.DecodeString(h.HexSum())
+						copy(got[:], b)
+					}
+					if got != want {
+						if wrong.Add(1) == 1 {
+							first.Store(fmt.Sprintf("%x", got))
+						}
+					}
+				}
+			}(g)
+		}
+		wg.Wait()
+		r.Eval(G * 200)
+		cs := map[string]any{"msg_hex": mon.FullHex(m), "readers": G}
+		if n := wrong.Load(); n > 0 {
+			r.Violation("md4.read:concurrent-readers", fmt.Sprintf("%d of %d digest reads by %d goroutines of one object holding %d bytes gave another value (first %v, want %x)", n, G*200, G, len(m), first.Load(), want), cs)
+		}
+		h.Write(more)
+		r.Eval(1)
+		if got, w2 := h.Sum(), refMD4(append(append([]byte{}, m...), more...)); got != w2 {
+			r.Violation("md4.read:after-concurrent-readers", fmt.Sprintf("after the readers, writing %d more bytes gives %x want %x", len(more), got, w2), cs)
+		}
+		r.Nontrivial(fmt.Sprintf("shared-readers|%d", len(m)))
+	}
+}
+
 func main() {
 	r = mon.Start("C01", "exploration")
 	r.Rule("MD4: every length 0..N with every 2-way cut plus seeded k-way cuts and long random chunkings; digest-read/write operation strings; NT/LM/DCC/DCC2 on Unicode-class passwords/users/rounds. Non-trivial: a cut vector that crosses a 64-byte block or the 56-byte padding edge, an operation string with >=2 digest reads or a read followed by writes, a distinct (password class, user class, lengths, rounds) tuple.")
 	r.Assume("crypto/des, crypto/sha1, crypto/hmac of the Go standard library are correct", "golang.org/x/crypto/md4 and the harness's RFC 1320 transcription must agree on every message (else inconclusive)", "lower-casing of user names uses Go's strings.ToLower in the reference as well (simple case mapping)", "DCC2 hashcat line: user field compared case-insensitively, hex compared case-insensitively")
+	// race side run (./check builds this monitor with -race): only the workloads in which goroutines
+	// use the library at the same time; the detector's reports are filed by Finish
+	if mon.SideRace() {
+		concurrentCallers()
+		sharedReaders()
+		r.Finish()
+	}
 	md4Streaming()
 	md4Interleave()
 	md4Long()
 	hashes()
 	concurrentCallers()
+	sharedReaders()
 	r.Finish()
 }
